@@ -142,8 +142,9 @@ impl Fq2 {
             });
         }
 
-        let c1 = Fq::from_slice(&s[..32]).unwrap();
-        let c0 = Fq::from_slice(&s[32..]).unwrap();
+        // both halves must be canonical field elements (below q)
+        let c1 = Fq::from_slice(&s[..32]).ok_or(Error::NotInField)?;
+        let c0 = Fq::from_slice(&s[32..]).ok_or(Error::NotInField)?;
 
         Ok(Fq2 { c0, c1 })
     }
